@@ -99,6 +99,9 @@ func backendProp(b backendSpec, meaning string) propFunc {
 			c.runExtentOrder(r, "array.extentorder", inPkgs("glsl"))
 			r.floor("array.extentorder", 1)
 		}
+		r.Clauses = append(r.Clauses, irFieldReadClause)
+		c.runIRFieldRead(r, "irfield.read", b.Name, irFieldReadExceptions)
+		r.floor("irfield.read."+b.Name, 90)
 		r.Clauses = append(r.Clauses, shallowWalkerClause)
 		c.runShallowWalker(r, "walker.shallow", inPkgs(b.Name), shallowWalkerExceptions)
 		r.floor("walker.shallow", 2)
@@ -218,4 +221,30 @@ var parenPostfixExceptions = map[string]string{
 	"msl/internal/codegen.Writer.writeAccess:access.Base->.inner[#2":           "the base is a value of a wrapped array type (arrayWrappers lookup on its type handle); Binary, Select and ArrayLength expressions never have array type",
 	"msl/internal/codegen.Writer.writeAccessIndex:access.Base->.inner[%d]#2": "the base is a value of a wrapped array type; Binary, Select and ArrayLength expressions never have array type",
 	"msl/internal/codegen.Writer.writeAccessIndex:access.Base->[%d].inner#1": "the base is a binding array (isBindingArray); never a Binary / Select / ArrayLength expression",
+}
+
+const irFieldReadClause = "IR fields reach the output (E61): for every IR expression / statement kind the backend mentions, each field of the kind is read somewhere in the backend - a field nobody reads cannot influence the output"
+
+var resultPlaceholder = "result placeholder: the value is produced by the statement that names this expression as its Result (the statement's own Fun / Function / operands say the same thing)"
+
+var irFieldReadExceptions = map[string]string{
+	"spirv:ExprAtomicResult.Comparison":         resultPlaceholder,
+	"spirv:ExprCallResult.Function":             resultPlaceholder,
+	"spirv:ExprSubgroupOperationResult.Type":    resultPlaceholder,
+	"spirv:ExprRelational.Fun":                  "the SPIR-V emitter has no arm for ExprRelational at all (known finding of dispatch.reject under C08 and of the operand walker under C01); only a pre-scan mentions the type",
+	"hlsl:ExprAtomicResult.Ty":                  resultPlaceholder,
+	"hlsl:ExprAtomicResult.Comparison":          resultPlaceholder,
+	"hlsl:ExprSubgroupOperationResult.Type":     resultPlaceholder,
+	"hlsl:ExprOverride.Override":                "overrides are substituted by ir.ProcessOverrides before the HLSL writer runs; the only mention classifies the kind as uniform",
+	"msl:ExprAtomicResult.Ty":                   resultPlaceholder,
+	"msl:ExprAtomicResult.Comparison":           resultPlaceholder,
+	"msl:ExprCallResult.Function":               resultPlaceholder,
+	"msl:ExprSubgroupOperationResult.Type":      resultPlaceholder,
+	"glsl:ExprAtomicResult.Ty":                  resultPlaceholder,
+	"glsl:ExprAtomicResult.Comparison":          resultPlaceholder,
+	"glsl:ExprSubgroupOperationResult.Type":     resultPlaceholder,
+	"glsl:ExprRayQueryGetIntersection.Query":    "GLSL has no ray queries: any use needs a rayQueryInitialize statement, and writeRayQuery fails the compile",
+	"glsl:ExprRayQueryGetIntersection.Committed": "GLSL has no ray queries: any use needs a rayQueryInitialize statement, and writeRayQuery fails the compile",
+	"glsl:StmtRayQuery.Query":                   "GLSL has no ray queries: writeRayQuery returns an error",
+	"glsl:StmtRayQuery.Fun":                     "GLSL has no ray queries: writeRayQuery returns an error",
 }
